@@ -75,7 +75,7 @@ var encryptErrExceptions = []ErrException{
 
 func runC09(c *Ctx) {
 	p, r := c.P, c.R
-	r.Explanation = "Decides the fail-closed and secure-default clauses structurally: every return of every Node.Process implementation of the repository carries a nil event or a nil error (never both non-nil); inside the encrypt walk no fallible call's error is dropped and each is returned (itself or wrapped) on every path of its error branch, so it reaches Process's error result; rotation payloads are consumed; DefaultFilterOperations is the literal table {public: none, sensitive: encrypt, secret: redact}, a missing tag yields (unknown, unknown) and convertToOperation is the identity on the declared constants; the full decision table of filterValue over classification x operation (no mutation iff public or none; secret/sensitive -> encrypt | hmac | redact per operation, anything else an error; every other classification redacted) including which early exits skip protection; NoOperation never survives for sensitive/secret unless it came from the override map; the handler inventory of the three reflective dispatchers; and that struct values handed to the field walk are settable or replaced by an addressable copy. It does not decide that the reflective walk reaches every string of every payload shape (reflection is opaque), nor cryptographic secrecy. C09.tagpair: every on-the-spot classification is computed from the tag that belongs to the very value being filtered (field i / the same PointerTag, in classification,operation order; write-back pointer and tracking entry agree; bare payloads are secret). C09.skip: closed vocabulary of skip conditions in the walkers; C09.mark: keys are marked filtered only in the map that directly holds the value; a payload that is itself a map is tracked for the final sweep. C09.shortcut: the untouched early return is taken only if every class's effective operation is none. C09.nilelem: no reflect.Value method that panics on the zero Value is reachable from an Elem() without a validity test (nil elements and fields are skipped, not a crash). C09.mark key-unescaped: tracking and pointerstructure agree on the key a pointer names. C09.defaults snapshot/option verbatim: operation overrides reach the tag decision exactly as configured. C09.every: element walkers leave a handling loop early only with an error. C09.handlers taggable-field-unconditional: a Taggable field's tags are applied whatever options the walk got (F52); C09.nilelem covers MapIndex results (F51). C09.handlers taggable-then-generic: after filterTaggable a trackMap and a filterField call stay reachable within the same iteration. C09.recover: recover discipline over package encrypt. C09.mark skip-identity: the name the sweep looks a key up under is derived from the key's typed accessors only."
+	r.Explanation = "Decides the fail-closed and secure-default clauses structurally: every return of every Node.Process implementation of the repository carries a nil event or a nil error (never both non-nil); inside the encrypt walk no fallible call's error is dropped and each is returned (itself or wrapped) on every path of its error branch, so it reaches Process's error result; rotation payloads are consumed; DefaultFilterOperations is the literal table {public: none, sensitive: encrypt, secret: redact}, a missing tag yields (unknown, unknown) and convertToOperation is the identity on the declared constants; the full decision table of filterValue over classification x operation (no mutation iff public or none; secret/sensitive -> encrypt | hmac | redact per operation, anything else an error; every other classification redacted) including which early exits skip protection; NoOperation never survives for sensitive/secret unless it came from the override map; the handler inventory of the three reflective dispatchers; and that struct values handed to the field walk are settable or replaced by an addressable copy. It does not decide that the reflective walk reaches every string of every payload shape (reflection is opaque), nor cryptographic secrecy. C09.tagpair: every on-the-spot classification is computed from the tag that belongs to the very value being filtered (field i / the same PointerTag, in classification,operation order; write-back pointer and tracking entry agree; bare payloads are secret). C09.skip: closed vocabulary of skip conditions in the walkers; C09.mark: keys are marked filtered only in the map that directly holds the value; a payload that is itself a map is tracked for the final sweep. C09.shortcut: the untouched early return is taken only if every class's effective operation is none. C09.nilelem: no reflect.Value method that panics on the zero Value is reachable from an Elem() without a validity test (nil elements and fields are skipped, not a crash). C09.mark key-unescaped: tracking and pointerstructure agree on the key a pointer names. C09.defaults snapshot/option verbatim: operation overrides reach the tag decision exactly as configured. C09.every: element walkers leave a handling loop early only with an error. C09.handlers taggable-field-unconditional: a Taggable field's tags are applied whatever options the walk got (F52); C09.nilelem covers MapIndex results (F51). C09.handlers taggable-then-generic: after filterTaggable a trackMap and a filterField call stay reachable within the same iteration. C09.recover: recover discipline over package encrypt. C09.mark skip-identity: the name the sweep looks a key up under is derived from the key's typed accessors only. C09.handlers struct-arm-unconditional and C09.kind struct-kind (F56)."
 	r.NotDecided = []string{"completeness of the reflective walk over all payload shapes (arm priority, pointer depth, arrays, shapes falling into the 'nothing reasonable yet' defaults)", "cryptographic secrecy of the wrapper"}
 	c.errControls()
 
@@ -112,6 +112,8 @@ func runC09(c *Ctx) {
 	c.ruleEveryElement("C09.every")
 	c.ruleSweepUnknown("C09.value")
 	c.rulePointerKindGuard("C09.nilelem")
+	c.ruleStructKindGuard("C09.kind")
+	c.ruleStructArmRecurses("C09.handlers")
 	c.ruleTaggableTrackIdentity("C09.mark")
 	c.ruleSkipIdentity("C09.mark")
 	c.ruleTaggableFieldAlways("C09.handlers")
@@ -1034,7 +1036,7 @@ func (c *Ctx) ruleSettable() {
 
 func runC10(c *Ctx) {
 	p, r := c.P, c.R
-	r.Explanation = "Decides that every mutation performed by encrypt.Filter.Process is applied to the private deep copy: MUT is the set of functions of the package that can reach reflect.Value.Set*/SetMapIndex or pointerstructure.Set (computed from the call graph); in Process every call into MUT is dominated by the success edge of the deep-copy call and none of its arguments derives from the original event except through the copy's result; every return of the original event itself (nil payload, all-NoOperation configuration, zero payload) has a nil error and no MUT call before it; no function of the package stores into a field of a Process event parameter. That copystructure.Copy is deep for every shape, and the preservation of the output's shape/lengths/keys, are not decided (third-party semantics, reflection). C10.guards (what dominates the copy), C10.public (no mutation without excluding public), C10.sinks (closed vocabulary of reflective mutations), C10.resweep (a separately tracked nested map is not swept through its parent). C10.every: a tag whose key is absent does not end the walk over the tags (no early success from a handling loop). C10.tagpair / C10.public taggable-field-unconditional: see C09. C10.mut payload-bytes-readonly: no in-place write reaches a byte slice of the original payload. C10.mark skip-identity: as C09.mark. C10.exacttype unwrap-once: no Elem() on a loop-carried value."
+	r.Explanation = "Decides that every mutation performed by encrypt.Filter.Process is applied to the private deep copy: MUT is the set of functions of the package that can reach reflect.Value.Set*/SetMapIndex or pointerstructure.Set (computed from the call graph); in Process every call into MUT is dominated by the success edge of the deep-copy call and none of its arguments derives from the original event except through the copy's result; every return of the original event itself (nil payload, all-NoOperation configuration, zero payload) has a nil error and no MUT call before it; no function of the package stores into a field of a Process event parameter. That copystructure.Copy is deep for every shape, and the preservation of the output's shape/lengths/keys, are not decided (third-party semantics, reflection). C10.guards (what dominates the copy), C10.public (no mutation without excluding public), C10.sinks (closed vocabulary of reflective mutations), C10.resweep (a separately tracked nested map is not swept through its parent). C10.every: a tag whose key is absent does not end the walk over the tags (no early success from a handling loop). C10.tagpair / C10.public taggable-field-unconditional: see C09. C10.mut payload-bytes-readonly: no in-place write reaches a byte slice of the original payload. C10.mark skip-identity: as C09.mark. C10.exacttype unwrap-once: no Elem() on a loop-carried value. C10.none: the defaults table has exactly the three classes."
 	r.NotDecided = []string{"copystructure.Copy being a deep copy for every payload shape (A4)", "preservation of dynamic type, container lengths and keys in the output (runtime values behind reflection)"}
 	proc := c.Fn("C10.anchor", PkgEncrypt, "Filter", "Process")
 	if proc == nil {
@@ -1326,6 +1328,16 @@ func runC10(c *Ctx) {
 	c.ruleSweepNoCarriedFlags("C10.ptrvalue")
 	c.ruleExactLeafTypes()
 	c.ruleUnwrapOnce("C10.exacttype")
+	// "with all operations overridden to none the event is forwarded unchanged": the classes Process ranges
+	// over to decide whether anything is filtered are the keys of DefaultFilterOperations — exactly the three
+	// classes an override can name (the table rule of C09.defaults under C10)
+	nObl := len(c.R.Obls)
+	c.ruleDefaults()
+	for i := nObl; i < len(c.R.Obls); i++ {
+		if c.R.Obls[i].Rule == "C09.defaults" {
+			c.R.Obls[i].Rule = "C10.none"
+		}
+	}
 	c.ruleMarkFiltered("C10.mark")
 	c.ruleEveryElement("C10.every")
 	c.ruleTaggableTrackIdentity("C10.mark")
@@ -1574,7 +1586,7 @@ func runC16(c *Ctx) {
 			// caller, or another Filter built from the same slice, may still use) are never written into
 			if name == "Process" && (nm == "HmacSalt" || nm == "HmacInfo") {
 				vt := p.NewTerms(nil).Of(st.Val)
-				r.Check(vt.Is("Make", "slice"), "C16.atomic", p.ShortFn(fn)+":fresh-copy:"+nm, p.InstrPos(in), "rotated "+nm+" is a freshly allocated copy",
+				r.Check(vt.Is("Make", "slice") || isFreshBytes(vt), "C16.atomic", p.ShortFn(fn)+":fresh-copy:"+nm, p.InstrPos(in), "rotated "+nm+" is a freshly allocated copy",
 					"the rotated "+nm+" is "+vt.String()+", not a fresh copy: writing the new value through the old buffer changes memory that the caller or another Filter still uses as its salt/info (their HMACs silently change)")
 			}
 		})
@@ -1933,4 +1945,16 @@ func (c *Ctx) ruleEventKeyMaterial(rule string) {
 			r.Und(rule, "instance-floor", "", fmt.Sprintf("only %d value operations found in Process", n))
 		}
 	}
+}
+
+// isFreshBytes: a freshly allocated copy spelled with the library: bytes.Clone(x), slices.Clone(x),
+// append([]byte(nil), x...).
+func isFreshBytes(t *Term) bool {
+	if t == nil || t.Op != "Call" {
+		return false
+	}
+	if t.Name == "bytes.Clone" || strings.HasPrefix(t.Name, "slices.Clone[") {
+		return true
+	}
+	return t.Name == "builtin append" && len(t.Args) == 2 && t.Args[0].Is("Const", "nil")
 }
